@@ -836,7 +836,11 @@ class FunctionBuilder:
         if inspect.iscoroutinefunction(func):
             kwargs['is_async'] = True
 
-        return cls(**kwargs)
+        ret = cls(**kwargs)
+        # the constructor reads None as "use the default" (''), but a
+        # function without a docstring has __doc__ None
+        ret.doc = kwargs['doc']
+        return ret
 
     def get_func(self, execdict=None, add_source=True, with_dict=True):
         """Compile and return a new function based on the current values of
